@@ -992,6 +992,15 @@ ONE_LINE_ENUMS = [
 STRAY = ["@", "#", "$", "!", "?", "~", "|", "&", "%", "^", ",", "<", ">", "`", '"unterminated']
 
 
+STORED_NODE_KINDS = {
+    "dup-definition", "dup-field-number", "dup-field-name", "enum-dup-value", "enum-dup-name", "enum-overflow", "max-bytes-overflow",
+    "message-too-large", "alias-of-named-type", "alias-in-enum", "const-in-enum", "option-in-enum", "enum-in-enum", "message-in-enum",
+    "field-in-enum", "import-in-enum", "alias-in-message", "const-in-message", "import-in-message", "import-name-taken", "duplicated-import",
+    "cyclic-import", "unknown-option", "option-type", "option-value", "field-number-range", "field-number-0", "field-number-256", "array-cap",
+    "bad-width", "bad-width-array", "non-integer-array-cap", "unknown-message-option",
+}
+
+
 def make_violation(rng: random.Random, slot: Slot, self_path: str, extra_path: str, trad: bool) -> Optional[Tuple[str, str]]:
     """(kind, statement text) of ONE violating statement that fits the slot's scope; everything it
     needs stands on its own line"""
@@ -1116,6 +1125,11 @@ def make_violation(rng: random.Random, slot: Slot, self_path: str, extra_path: s
             return None
     if not cands:
         return None
+    # errors raised from a STORED node (not from the token under the parser's nose) are the ones whose
+    # position can silently be the wrong one: give them more than their uniform share
+    stored = [c for c in cands if c[0] in STORED_NODE_KINDS]
+    if stored and r.random() < 0.6:
+        return r.choice(stored)
     return r.choice(cands)
 
 
@@ -1130,7 +1144,7 @@ class Job:
 
 
 def check(run: common.Run, drv: Any, rng: random.Random, tier: str) -> None:
-    n_prog, n_inj, chunk = (24, 8, 6) if tier == "quick" else (260, 10, 13)
+    n_prog, n_inj, chunk = (24, 10, 6) if tier == "quick" else (260, 12, 13)
     with R.Scratch("bpv-c20-") as sc, CF.ThreadPoolExecutor(16) as ex:
         cb = replay_kf(run, sc)
         run.notes["column_base_measured"] = cb.base
@@ -1255,7 +1269,7 @@ def inject_errors(run: common.Run, rng: random.Random, ex: Any, jobs: List[Job],
         want = rng.choice(["global", "message", "enum", "any"])
         pool = [s for s in pr.slots if s.scope == want] or pr.slots
         slot = rng.choice(pool)
-        trad = trad_ok and rng.random() < 0.12
+        trad = trad_ok and rng.random() < 0.2
         here = os.path.dirname(rel) or "."
         v = make_violation(rng, slot, os.path.relpath(rel, here), os.path.relpath(extra_rel, here), trad)
         if v is None:
@@ -1281,7 +1295,7 @@ def inject_errors(run: common.Run, rng: random.Random, ex: Any, jobs: List[Job],
                                 ["py", main_rel, "out_py", "-q"]])]
         shared: Dict[str, Any] = {"run": run, "files": files, "kind": kind, "scope": slot.scope, "depth": depth, "exp_file": exp_file,
                                   "exp_line": exp_line, "rel": rel, "stmt": line, "layout": lay_main.name, "state": state}
-        if rng.random() < 0.45:
+        if rng.random() < 0.7:
             cmds = cmds[:1] if rng.random() < 0.5 else cmds[1:]
         for argv in cmds:
             submit(ex, jobs, vdir, argv, ev_error, **shared)
